@@ -143,6 +143,7 @@ Fixpoint need (v : xv) : nat :=
   | XS _ => 1
   | XL l => S (length l + fold_right (fun x a => Nat.max (need x) a) 0%nat l)
   | XM l => S (length l + fold_right (fun kv a => Nat.max (need (snd kv)) a) 0%nat l)
+  | XW _ w => need w
   end.
 
 Lemma parse_mono : forall f m s res, parse f m s = Some res -> forall f', (f' >= f)%nat -> parse f' m s = Some res.
@@ -193,10 +194,14 @@ Lemma json_string_parse : forall s r, parse_str (esc_str tbl s ++ quote :: r) = 
 Proof. apply json_string_roundtrip_cfg. exact Hok. Qed.
 
 (* the export of any value starts with a non-blank character *)
-Lemma export_head : forall v, exists c r, export tbl v = c :: r /\ is_ws c = false.
+Lemma export_head3 : forall v, exists c r, export tbl v = c :: r /\ is_ws c = false /\ (c =? 93) = false.
 Proof.
-  destruct v; simpl; eexists; eexists; (split; [reflexivity|reflexivity]).
+  induction v as [s|l|l|b w IH]; try (simpl; eexists; eexists; (split; [reflexivity|split; reflexivity])).
+  exact IH.
 Qed.
+
+Lemma export_head : forall v, exists c r, export tbl v = c :: r /\ is_ws c = false.
+Proof. intro v. destruct (export_head3 v) as [c [r [E [W _]]]]. exists c, r. split; assumption. Qed.
 
 Definition val_ok (v : xv) : Prop :=
   forall rest, parse (need v) MVal (export tbl v ++ rest) = Some (jproj v, rest).
@@ -292,13 +297,15 @@ Fixpoint xv_rect' (P : xv -> Prop)
   (HS : forall s, P (XS s))
   (HL : forall l, Forall P l -> P (XL l))
   (HM : forall l, Forall (fun kv => P (snd kv)) l -> P (XM l))
+  (HW : forall b w, P w -> P (XW b w))
   (v : xv) : P v :=
   match v with
   | XS s => HS s
   | XL l => HL l ((fix go (l : list xv) : Forall P l :=
-                     match l with [] => Forall_nil _ | x :: r => Forall_cons _ (xv_rect' P HS HL HM x) (go r) end) l)
+                     match l with [] => Forall_nil _ | x :: r => Forall_cons _ (xv_rect' P HS HL HM HW x) (go r) end) l)
   | XM l => HM l ((fix go (l : list (str * xv)) : Forall (fun kv => P (snd kv)) l :=
-                     match l with [] => Forall_nil _ | x :: r => Forall_cons _ (xv_rect' P HS HL HM (snd x)) (go r) end) l)
+                     match l with [] => Forall_nil _ | x :: r => Forall_cons _ (xv_rect' P HS HL HM HW (snd x)) (go r) end) l)
+  | XW b w => HW b w (xv_rect' P HS HL HM HW w)
   end.
 
 Lemma need_max_perm : forall (l l' : list (str * xv)), Permutation l l' ->
@@ -308,7 +315,7 @@ Proof. induction 1; cbn [fold_right]; lia. Qed.
 
 Theorem export_parses : forall v, val_ok v.
 Proof.
-  induction v as [s|l IH|l IH] using xv_rect'; intro rest.
+  induction v as [s|l IH|l IH|b w IH] using xv_rect'; intro rest; [| | |exact (IH rest)].
   - (* scalar *)
     unfold export, json_string, need. cbn [app]. rewrite <- app_assoc. cbn [app parse].
     replace (skip_ws (quote :: esc_str tbl s ++ quote :: rest))
@@ -323,13 +330,11 @@ Proof.
       match goal with |- context [skip_ws (91 :: ?t)] =>
         replace (skip_ws (91 :: t)) with (91 :: t) by reflexivity end.
       change (91 =? 34) with false. change (91 =? 91) with true. cbv iota.
-      destruct (export_head x) as [c [r [Hc Hw]]].
+      destruct (export_head3 x) as [c [r [Hc [Hw Hc93]]]].
       assert (Hhd : exists t, sep_concat (map (export tbl) (x :: l')) ++ 93 :: rest = c :: t /\ (c =? 93) = false).
       { destruct l' as [|y l''].
-        - cbn [map]. rewrite sep_concat_one, Hc. eexists. split; [reflexivity|].
-          destruct x; inversion Hc; reflexivity.
-        - rewrite !map_cons, sep_concat_cons2, Hc. eexists. split; [reflexivity|].
-          destruct x; inversion Hc; reflexivity. }
+        - cbn [map]. rewrite sep_concat_one, Hc. eexists. split; [reflexivity|exact Hc93].
+        - rewrite !map_cons, sep_concat_cons2, Hc. eexists. split; [reflexivity|exact Hc93]. }
       destruct Hhd as [t [Ht Hn]].
       rewrite Ht. rewrite (skip_ws_nonws c t Hw). rewrite Hn. rewrite <- Ht.
       subst F1. apply (elems_ok (x :: l') IH ltac:(discriminate)). lia.
@@ -367,13 +372,14 @@ End Export.
 
 Lemma export_len2 : forall tbl v, (length (export tbl v) >= 2)%nat.
 Proof.
-  intros tbl v. destruct v; unfold export; fold (export tbl); unfold json_string; cbn [length];
+  intros tbl v. induction v as [s|l|l|b w IH]; [| | |exact IH];
+    unfold export; fold (export tbl); unfold json_string; cbn [length];
     rewrite app_length; cbn [length]; lia.
 Qed.
 
 Lemma need_le_length : forall tbl v, (need v <= length (export tbl v))%nat.
 Proof.
-  intros tbl. induction v as [s|l IH|l IH] using xv_rect'.
+  intros tbl. induction v as [s|l IH|l IH|b w IH] using xv_rect'; [| | |exact IH].
   - pose proof (export_len2 tbl (XS s)). unfold need. lia.
   - unfold need; fold need. unfold export; fold (export tbl). cbn [length]. rewrite app_length. cbn [length].
     assert (H : (length l + fold_right (fun x a => Nat.max (need x) a) 0 l <= S (length (sep_concat (map (export tbl) l))))%nat).
@@ -424,3 +430,23 @@ Theorem jproj_keys_perm : forall l,
   Permutation (map (fun kv => (fst kv, jproj (snd kv))) l)
               (match jproj (XM l) with JObj m => m | _ => [] end).
 Proof. intro l. cbn [jproj]. apply sort_keys_perm. Qed.
+
+(* ---------- Format / Link wrappers are transparent ---------- *)
+
+Theorem export_wrap : forall tbl ws v, export tbl (wrap ws v) = export tbl v.
+Proof. intros tbl ws v. induction ws as [|b ws IH]; [reflexivity|exact IH]. Qed.
+
+Theorem jproj_wrap : forall ws v, jproj (wrap ws v) = jproj v.
+Proof. intros ws v. induction ws as [|b ws IH]; [reflexivity|exact IH]. Qed.
+
+Theorem export_strip : forall tbl v, export tbl (strip_wrappers v) = export tbl v.
+Proof.
+  intros tbl. induction v as [s|l IH|l IH|b w IH] using xv_rect'.
+  - reflexivity.
+  - unfold strip_wrappers; fold strip_wrappers. unfold export; fold (export tbl). do 3 f_equal.
+    rewrite map_map. apply map_ext_in. intros x Hx. rewrite Forall_forall in IH. apply IH. exact Hx.
+  - unfold strip_wrappers; fold strip_wrappers. unfold export; fold (export tbl). do 5 f_equal.
+    rewrite map_map. apply map_ext_in. intros x Hx. rewrite Forall_forall in IH. cbn [fst snd].
+    rewrite (IH x Hx). reflexivity.
+  - exact IH.
+Qed.
